@@ -47,7 +47,7 @@ for r in rows:
 n = len(rows)
 c = sum(1 for r in rows if r[4].startswith("caught"))
 out.append(f"\n{c} of {n} seeded changes are caught by the quick tier of a registered check; `C07-w9-1`, `C18-w9-1`, `C10-w10-1` and `C14-w11-1` (they need "
-           "millions of characters) by the thorough tier only; `C10-w9-1`, `C04-w11-1` (32-bit builds only) and `C10-w11-1` (in my reading not a violation) are not caught (§8).\n")
+           "millions of characters) by the thorough tier only; `C10-w9-1` and `C10-w11-1` (in my reading not a violation) are not caught (§8).\n")
 # ---- own mutants
 try:
     mm = json.load(open(os.path.join(VERIF, "tools", "mutants.last.json")))
